@@ -89,7 +89,7 @@ def execute(ctx, case):
     # merge neighbouring floats (new ties) - then nothing is claimed for it.
     mapped = np.concatenate([af.pos, af.neg]) if allv.size else allv
     iso = (not allv.size) or (np.array_equal(np.argsort(allv, kind="stable"), np.argsort(np.concatenate([a * posf + b, a * negf + b]), kind="stable"))
-                             and len(np.unique(allv)) == len(np.unique(mapped)))
+                             and len(np.unique(allv)) == len(np.unique(mapped)) and bool(np.all(np.isfinite(mapped))))  # an overflowing image is not a finite score set
     if case["exact"]:
         # thresholds on the dyadic grid are mapped exactly too (ulp-neighbours of a score are not: the ulp changes with magnitude)
         grid = np.isinf(ths) | (ths * 1024 == np.round(ths * 1024))
